@@ -49,14 +49,14 @@ const (
 	OpFSubRaw
 	OpFMulRaw
 	OpFDivRaw
-	OpFRoundRaw  // v = rounding mode: 0 RNE(ToEven) 1 RTZ(trunc) 2 RTN(floor) 3 RTP(ceil) 4 RNA(round)
-	OpFSqrtRaw   //
-	OpFFromSBV   // signed int (any width) -> float (w = 32/64)
-	OpFFromUBV   //
-	OpFToSBVRaw  // float -> signed int of width w, RTZ (unspecified when out of range)
-	OpFToFRaw    // float32<->float64 conversion, w = target width
-	OpFLtRaw     // fp.lt on non-NaN operands (only used by the solver-side cross-check; normal compare is BV-encoded)
-	OpUF         // uninterpreted function application; name, result width w
+	OpFRoundRaw // v = rounding mode: 0 RNE(ToEven) 1 RTZ(trunc) 2 RTN(floor) 3 RTP(ceil) 4 RNA(round)
+	OpFSqrtRaw  //
+	OpFFromSBV  // signed int (any width) -> float (w = 32/64)
+	OpFFromUBV  //
+	OpFToSBVRaw // float -> signed int of width w, RTZ (unspecified when out of range)
+	OpFToFRaw   // float32<->float64 conversion, w = target width
+	OpFLtRaw    // fp.lt on non-NaN operands (only used by the solver-side cross-check; normal compare is BV-encoded)
+	OpUF        // uninterpreted function application; name, result width w
 )
 
 var opNames = map[Op]string{
@@ -76,7 +76,7 @@ type Term struct {
 	name string
 	big  *big.Int // constant for w>64
 	id   int
-	size int // dag-size estimate (saturating)
+	size int    // dag-size estimate (saturating)
 	k0   uint64 // bits known to be 0 (w <= 64)
 	k1   uint64 // bits known to be 1 (w <= 64)
 }
